@@ -241,3 +241,60 @@ class IsSolid(Contract):
             return [("none-so-far", ForAll(lambda k: nth(xs, k) <= 1, guard=lambda k: And(k >= 0, k < Lp.i), over=xs))]
 
         return {"py7zr:SevenZipFile._is_solid#loop0": LoopSpec("for-f", inv)}
+
+
+# ---------------------------------------------------------------------------------------------- ArchiveFileList
+@contract
+class ArchiveFileListAppend(Contract):
+    """a member list remembers, for every member, the archive-wide id under which output targets are registered:
+    the id handed over, or - for the archive-wide list itself - the next consecutive number"""
+
+    target = PY + "ArchiveFileList.append"
+    props = ("C01", "C06", "C09")
+
+    def setup(self, c):
+        case = c.choice(2)
+        self_ = c.obj("ArchiveFileList", "py7zr.py7zr", files_list=c.int_list("members"), ids=c.int_list("ids"), index=0, offset=c.int("offset"))
+        return {"self_": self_, "file_info": c.int("member"), "id": None if case == 0 else c.int("id")}
+
+    def requires(self, c, self_, file_info, id):
+        return [("one-id-per-member", L(c.f(self_, "ids")) == L(c.f(self_, "files_list")))]
+
+    def modifies(self, c, self_, file_info, id):
+        return [(self_, "files_list"), (self_, "ids")]
+
+    def ensures(self, c, old, result, self_, file_info, id):
+        ids0, fl0 = old.f(self_, "ids"), old.f(self_, "files_list")
+        ids, fl = c.f(self_, "ids"), c.f(self_, "files_list")
+        want = (L(fl0) + old.f(self_, "offset")) if id is None else id
+        return [
+            ("member-appended", And(L(fl) == L(fl0) + 1, nth(fl, L(fl0)) == file_info, eq(V.slice_(fl, 0, L(fl0)), fl0))),
+            ("id-appended", And(L(ids) == L(ids0) + 1, nth(ids, L(ids0)) == want, eq(V.slice_(ids, 0, L(ids0)), ids0))),
+        ]
+
+
+@contract
+class ArchiveFileListGetItem(Contract):
+    """member k of a list is handed out with the id recorded for it (never with a recomputed one)"""
+
+    target = PY + "ArchiveFileList.__getitem__"
+    props = ("C01", "C06", "C09")
+    inline = ("py7zr:ArchiveFile.__init__",)
+
+    def setup(self, c):
+        self_ = c.obj("ArchiveFileList", "py7zr.py7zr", files_list=c.int_list("members"), ids=c.int_list("ids"), index=0, offset=c.int("offset"))
+        return {"self_": self_, "index": c.int("index")}
+
+    def requires(self, c, self_, index):
+        return [("one-id-per-member", L(c.f(self_, "ids")) == L(c.f(self_, "files_list")))]
+
+    def raises(self):
+        return [RaiseSpec("IndexError")]
+
+    def ensures(self, c, old, result, self_, index):
+        if getattr(c, "concrete", False):
+            return [("id-is-the-recorded-one", result.id == self_.ids[index] and result._file_info == self_.files_list[index])]
+        return [
+            ("id-is-the-recorded-one", c.f(result, "id") == nth(c.f(self_, "ids"), index)),
+            ("member-is-the-kth", c.f(result, "_file_info") == nth(c.f(self_, "files_list"), index)),
+        ]
